@@ -280,8 +280,15 @@ def deriv_alphabet(param=False):
         lambda: ("fn", {"params": [M("param", specs=specs_of(M("tdname", name="T0")), dtor=dtor(None)),
                                    M("param", specs=specs_of(M("tdname", name="T1"), quals=["const"]), dtor=dtor(None, [("ptr", [])]))],
                         "variadic": False, "kr": None}),
+        lambda: ("arr", {"size": "*", "quals": ["const"]}),
+        lambda: ("arr", {"size": "*", "quals": ["restrict", "volatile"]}),
+        lambda: ("fn", {"params": [M("param", specs=specs_of(M("tdname", name="T0")), dtor=dtor(None))], "variadic": False, "kr": None}),
+        lambda: ("arr", {"size": None, "quals": ["const"]}),
     ]
     return p
+
+
+N_DERIV_VARIANTS = 16
 
 
 BASE_SPECS = [
